@@ -593,6 +593,10 @@ func runWeighted(run *core.Run) {
 		// (d) 16 goroutines build one shared model under the race detector; results compared with the sequential build
 		raceRun(run, "c06", run.N(150, 1500), run.N(1, 4))
 	}
+	if run.Prop == "C10" {
+		// the structure must also come out right when one model / one builder value is used by many goroutines
+		raceRun(run, "c06", run.N(60, 600), run.N(1, 2))
+	}
 }
 
 // witnessModels are the concrete inputs of the defects found during design (DESIGN §6): replayed on every run.
